@@ -89,6 +89,19 @@ def gen_C01(tier, rnd):
     ntree = 10000 if tier == 'quick' else 100000
     for _ in range(ntree):
         lines.append('P ' + hx(' '.join(spell_tree(rand_tree(rnd, rnd.randint(1, 8)), rnd, 0))))
+    # a scan-wide option written inside the expression is a primary of the grammar too (it stands for -true there):
+    # all sequences up to length 4 over the words plus -depth, and random longer ones; never as the first word, where it
+    # is a leading option and not part of the expression
+    words2 = C01_WORDS + ['-depth']
+    for n in range(2, 5):
+        for combo in itertools.product(words2, repeat=n):
+            if '-depth' in combo and combo[0] != '-depth':
+                lines.append('P ' + hx(' '.join(combo)))
+    for _ in range(nrand // 4):
+        n = rnd.randint(5, 30)
+        combo = [rnd.choice(words2) for _ in range(n)]
+        if combo[0] != '-depth' and '-depth' in combo:
+            lines.append('P ' + hx(' '.join(combo)))
     # long sentences: many operands at one level, many closed groups, deep nesting (the grammar has no length bound)
     nlong = 0
     for k in [2, 10, 63, 64, 65, 66, 100, 129, 200, 257, 500, 1000, 1001, 2049, 4097]:
